@@ -517,6 +517,10 @@ func (t *Crypto) deriveESWithOKPKey(apu, apv []byte, recPubKey *cryptoapi.Public
 		return "", nil, nil, nil, fmt.Errorf("deriveESWithOKPKey: failed to generate ephemeral key: %w", err)
 	}
 
+	if err = validX25519PublicKey(recPubKey.X); err != nil {
+		return "", nil, nil, nil, fmt.Errorf("deriveESWithOKPKey: recipient key: %w", err)
+	}
+
 	ephemeralPrivChacha := new([chacha20poly1305.KeySize]byte)
 	copy(ephemeralPrivChacha[:], ephemeralPrivKey)
 
@@ -549,6 +553,10 @@ func (t *Crypto) deriveESWithOKPKeyForUnwrap(alg string, apu, apv []byte, epk *c
 	recPrivOKPKey, ok := recipientPrivateKey.([]byte)
 	if !ok {
 		return nil, errors.New("deriveESWithOKPKeyForUnwrap: recipient key is not an OKP key")
+	}
+
+	if err := validX25519PublicKey(epk.X); err != nil {
+		return nil, fmt.Errorf("deriveESWithOKPKeyForUnwrap: ephemeral key: %w", err)
 	}
 
 	recPrivKeyChacha := new([chacha20poly1305.KeySize]byte)
